@@ -7,13 +7,26 @@
 package main
 
 import (
+	"crypto/elliptic"
 	"fmt"
 
 	"verif/harness/internal/hx"
 	"verif/harness/internal/prng"
 )
 
+// pureCall: a call of the real code that must be a function of its arguments only (the packages keep
+// precomputed tables and caches: fixedn's power-of-ten table, the public-key cache, the curve parameters,
+// big-integer constants). Every such call of a case is evaluated again at the end of the case, in the
+// reverse order, after all the other calls of the case: the answer must be the same.
+type pureCall struct {
+	op, obs string
+	f       func() string
+}
+
 type ctx struct {
+	pures   []pureCall
+	lastF   func() string
+	lastObs string
 	seed uint64
 	o    *hx.Out
 	r    *prng.R
@@ -55,6 +68,7 @@ func main() {
 		weights[i] = fm.weight
 	}
 	corpus := corpusCases()
+	curves0 := curveSnapshot()
 	n := f.N(6000, 150000)
 	for k := 0; k < n; k++ {
 		if !f.Want(k) {
@@ -65,11 +79,17 @@ func main() {
 		if k < len(corpus) {
 			o.Count("family:corpus")
 			runSafe(c, "corpus", corpus[k])
+			runSafe(c, "corpus-recheck", func(c *ctx) { c.recheck() })
 			continue
 		}
 		fm := fams[c.r.Weighted(weights)]
 		o.Count("family:" + fm.name)
 		runSafe(c, fm.name, fm.run)
+		runSafe(c, fm.name+"-recheck", func(c *ctx) { c.recheck() })
+		if now := curveSnapshot(); now != curves0 {
+			c.fail("curve-params-changed", "the shared curve parameters changed during this case: %s -> %s", curves0, now)
+			curves0 = now
+		}
 	}
 }
 
@@ -84,7 +104,52 @@ func runSafe(c *ctx, name string, fn func(c *ctx)) {
 	fn(c)
 }
 
+// safe is hx.Safe that remembers the closure: the next c.line with this observation registers it as a pure call.
+func (c *ctx) safe(f func() string) string {
+	obs := hx.Safe(f)
+	c.lastF, c.lastObs = f, obs
+	return obs
+}
+
+func (c *ctx) pureLine(op, obs string, f func() string) {
+	c.lastF, c.lastObs = f, obs
+	c.line(op, obs)
+}
+
+// recheck: every pure call of the case again, last first.
+func (c *ctx) recheck() {
+	for i := len(c.pures) - 1; i >= 0; i-- {
+		p := c.pures[i]
+		if again := hx.Safe(p.f); again != p.obs {
+			c.fail("not-a-function-of-arguments", "%s answered %s, and %s when asked again after the other %d calls of the case", clip(p.op), clip(p.obs), clip(again), len(c.pures)-1)
+			return
+		}
+	}
+	c.o.Add("pure:rechecked", len(c.pures))
+}
+
+// curveSnapshot: the shared parameter objects of the two curves (math/big values handed out by
+// reference); no call of the packages may change them.
+func curveSnapshot() string {
+	s := ""
+	for _, p := range []*elliptic.CurveParams{elliptic.P256().Params(), k1Curve.Params()} {
+		s += fmt.Sprintf("%s %s %s %s %s %d|", p.P, p.N, p.B, p.Gx, p.Gy, p.BitSize)
+	}
+	return s
+}
+
+func clip(s string) string {
+	if len(s) > 160 {
+		return s[:160] + "..."
+	}
+	return s
+}
+
 func (c *ctx) line(op, obs string) {
+	if c.lastF != nil && c.lastObs == obs && len(c.pures) < 200 {
+		c.pures = append(c.pures, pureCall{op, obs, c.lastF})
+	}
+	c.lastF = nil
 	c.o.Line(op, obs)
 	if c.k >= 8 && c.k < 20 && len(op) < 200 {
 		c.o.Sample(op + " -> " + obs)
